@@ -162,7 +162,8 @@ async fn run_tcp_system_inner(plan: &Plan, atomic_handshake: bool, via_port: u16
     for t in tasks {
         let _ = t.await;
     }
-    tokio::time::sleep(Duration::from_secs(20)).await;
+    // (QUIC connections drain and time out on their own clock: up to the 30 s idle timeout after the last flow ended)
+    tokio::time::sleep(Duration::from_secs(if plan.config.transport == Transport::Quic { 50 } else { 20 })).await;
     run.end_sockets = world::with(|w| [w.open_sockets(rt::NODE_CLIENT), w.open_sockets(rt::NODE_SERVER)]);
     run.end_tasks = [rt::alive_tasks_of(rt::NODE_CLIENT), rt::alive_tasks_of(rt::NODE_SERVER)];
     if run.end_sockets != run.idle_sockets {
@@ -457,9 +458,10 @@ pub fn gen_c09(seed: u64, thorough: bool) -> Plan {
     let mut g = Gen::new(seed, 9);
     let cells = all_proto_ciphers();
     let (proto, cipher) = cells[(seed as usize) % cells.len()];
-    let transport = TCP_TRANSPORTS[((seed as usize) / cells.len()) % TCP_TRANSPORTS.len()];
+    let transport = ALL_TRANSPORTS[((seed as usize) / cells.len()) % ALL_TRANSPORTS.len()];
     let n_users = if proto == Proto::Shadowsocks && supports_eih(cipher) && g.chance(50) { 2 } else { 0 };
     let config = gen_config(&mut g, proto, cipher, transport, n_users);
+    // (clean datagram link under QUIC: with loss the together / alone comparison would be between two different random experiments)
     let knobs = KnobsPlan::generate(&mut g).for_transport(transport);
     let n_flows = if g.chance(10) { g.range(9, if thorough { 64 } else { 24 }) } else { g.range(2, 8) } as usize;
     let max_bytes = if knobs.sndbuf <= 64 || knobs.read_style == 1 { 2000 } else { 12_000 };
